@@ -22,6 +22,12 @@ import PsVerif
 #print axioms PsVerif.more_sensors_injective
 #print axioms PsVerif.independent_rows_injective
 #print axioms PsVerif.qr_picks_nonzero_of_rank
+#print axioms PsVerif.qr_leading_independent
+#print axioms PsVerif.qr_default_recon_exact
+#print axioms PsVerif.qr_default_recon_exact_run
+#print axioms PsVerif.finrank_rowspace_of_mulVec_injective
+#print axioms PsVerif.finrank_rows_of_mulVec_injective
+#print axioms PsVerif.qr_default_recon_exact_of_injective
 -- C03
 #print axioms PsVerif.qr_greedy_max
 #print axioms PsVerif.gram_state_nonneg
